@@ -16,6 +16,9 @@ ASSUMPTIONS = ["Util::generateUuid returns distinct values"]
 
 
 def run(ctx):
+    # locals / parameters the rules below refer to by name (a rename makes the analysis 'broken', never a violation)
+    ctx.anchor(ctx.fn1('Oomd::Engine::Ruleset::runOnceImpl'), 'target', 'it', 'context')
+    ctx.anchor(ctx.fn1('Oomd::Engine::Ruleset::run_action_chain'), 'action', 'context')
     P = ctx.prog
     chain = ctx.fn1("Oomd::Engine::Ruleset::run_action_chain")
     impl = ctx.fn1("Oomd::Engine::Ruleset::runOnceImpl")
@@ -101,7 +104,7 @@ def run(ctx):
         okid = False
         for k in ident:
             for nm in set(w for w in k.replace("(", " ").replace(")", " ").replace("&", " ").split()):
-                init, v = local_init(impl, nm)
+                init, v = local_init(impl, nm, must=False)
                 if v is not None and init >= 0 and "active_action_chain_state_" in impl.text(init) \
                         and "active_plugin" in impl.text(init):
                     okid = True
